@@ -51,6 +51,86 @@ def acceptable(tag, field):
     return tag == "linC" if field == "C" else tag in REAL_OK
 
 
+class TranslationCache:
+    """Translations of operator views kept ACROSS runs (structural cut of the quick tier's cost, round 4).
+
+    Tracing is deterministic: for an unchanged code base the traced program of (class, configuration, view) is the same
+    in every run.  The cache lives in `lean/.lake/c06-cache/` (ignored by git, never under /tmp) and is keyed on a hash
+    of EVERY source file of the scico package under test, of the translator sources and of the versions of jax / jaxlib
+    / numpy / python; any change empties it.  A hit replaces `make_jaxpr` + `translate` by the stored IR (the emitted
+    Lean obligation is the same text).  Everything that *tests* - numerical probes, reused-buffer histories, and for a
+    seeded share of the hits a full re-trace whose result must equal the stored program (else INFRA: the cache is
+    wrong) together with the fidelity / family / in-situ streams - still runs on the live operator."""
+
+    def __init__(self, pkg, thorough):
+        import hashlib
+        import pickle
+        import sys
+
+        import jax
+        import jaxlib
+        import numpy
+
+        h = hashlib.sha256()
+        root = common.REPO / pkg
+        for f in sorted(root.rglob("*.py")):
+            h.update(f.relative_to(root).as_posix().encode())
+            h.update(f.read_bytes())
+        here = common.HARNESS_DIR if hasattr(common, "HARNESS_DIR") else __import__("pathlib").Path(__file__).resolve().parent
+        for name in ("jaxpr_ir.py", "jaxpr_ops.py", "translate_jaxpr.py", "opgrid.py"):
+            h.update((here / name).read_bytes())
+        h.update(repr((jax.__version__, jaxlib.__version__, numpy.__version__, sys.version_info[:3])).encode())
+        self.key = h.hexdigest()[:24]
+        self.dir = common.LEAN_DIR / ".lake" / "c06-cache"
+        self.dir.mkdir(parents=True, exist_ok=True)
+        self.path = self.dir / f"{self.key}.pkl"
+        self.pickle = pickle
+        self.data = {}
+        if self.path.exists():
+            try:
+                self.data = pickle.loads(self.path.read_bytes())
+            except Exception:  # noqa: BLE001
+                self.data = {}
+        self.hits = self.misses = self.retraced = self.new = 0
+
+    @staticmethod
+    def rkey(cls, cfg, view):
+        return json.dumps([cls, cfg, view], sort_keys=True, default=str)
+
+    def get(self, cls, cfg, view):
+        return self.data.get(self.rkey(cls, cfg, view))
+
+    def put(self, cls, cfg, view, prog, how):
+        k = self.rkey(cls, cfg, view)
+        if k not in self.data:
+            self.new += 1
+        self.data[k] = {"nin": prog.nin, "eqns": prog.eqns, "outs": prog.outs, "folded": prog.folded, "inlined": prog.inlined, "unrolled": prog.unrolled,
+                        "prims": prog.prims, "how": how}
+
+    def annotate(self, cls, cfg, view, **kw):
+        ent = self.data.get(self.rkey(cls, cfg, view))
+        if ent is not None and any(ent.get(k) != v for k, v in kw.items()):
+            ent.update(kw)
+            self.new += 1
+
+    def restore(self, ent):
+        prog = ir.Prog(ent["nin"])
+        prog.eqns, prog.outs = [tuple(e) for e in ent["eqns"]], list(ent["outs"])
+        prog.folded, prog.inlined, prog.unrolled, prog.prims = ent["folded"], ent["inlined"], ent["unrolled"], dict(ent["prims"])
+        return prog
+
+    def save(self):
+        if self.new:
+            tmp = self.path.with_suffix(".tmp%d" % __import__("os").getpid())
+            tmp.write_bytes(self.pickle.dumps(self.data))
+            tmp.replace(self.path)
+        for p in sorted(self.dir.glob("*.pkl"), key=lambda q: q.stat().st_mtime)[:-3]:  # keep the three most recent code states
+            p.unlink()
+
+    def stats(self):
+        return {"key": self.key, "hits": self.hits, "retraced_and_equal": self.retraced, "misses": self.misses, "entries": len(self.data)}
+
+
 def trace_view(A, view, fn, shp, dt):
     """-> (closed_jaxpr, how) ; falls back to the private `_adj` / `_eval` closures when the public entry point cannot
     be traced because of its argument checks (`how` records that)"""
@@ -70,7 +150,7 @@ def trace_view(A, view, fn, shp, dt):
     raise first
 
 
-def choose_views(rng, thorough, extra_quick=2):
+def choose_views(rng, thorough, extra_quick=1):
     if thorough:
         # whole grid: eval and adj always; gram and the six derived views for a seeded quarter of the configurations
         return list(ops.ALL_VIEWS) if rng.random() < 0.25 else ["eval", "adj"]
@@ -90,7 +170,7 @@ def _nonint_shape(A):
     return any(not isinstance(e, (int, np.integer)) for e in list(flat(A.input_shape)) + list(flat(A.output_shape)))
 
 
-def collect(rng, thorough, per_class, hist=None, known_ids=(), on_view=None, instances=None, on_program=None):
+def collect(rng, thorough, per_class, hist=None, known_ids=(), on_view=None, instances=None, on_program=None, cache=None, retrace=None):
     """Enumerate operators and views, trace and translate.
     -> (records, programs) ; programs: key -> dict(prog, field, tag, ok, pid, users).
     `on_view(rec, A, fn, shp, dt, phase)` is called for every view whose map could be obtained, before it is traced
@@ -143,8 +223,18 @@ def collect(rng, thorough, per_class, hist=None, known_ids=(), on_view=None, ins
                 # the numerical probe comes first: the operator is used as a caller would use it before it is traced
                 # (a map that depends on what it was applied to earlier then shows up in the probe and in the trace)
                 on_view(rec, A, fn, shp, dt, "before")
+            cached = cache.get(cls, cfg, view) if cache is not None else None
+            draw = retrace() if retrace is not None else True  # (drawn for every record: the stream does not depend on the cache state)
+            full = cached is None or draw
+            rec["cache"] = "none" if cache is None else "miss" if cached is None else "retraced" if full else "hit"
+            if not full:
+                cache.hits += 1
+                prog, how = cache.restore(cached), cached["how"]
+                rec["in_family"] = cached.get("in_family")
+                closed = None
             try:
-                closed, how = trace_view(A, view, fn, shp, dt)
+                if full:
+                    closed, how = trace_view(A, view, fn, shp, dt)
             except Exception as e:  # noqa: BLE001
                 # does the map raise on a concrete array as well?  then it is not a tracing problem (and not C06's)
                 try:
@@ -172,10 +262,22 @@ def collect(rng, thorough, per_class, hist=None, known_ids=(), on_view=None, ins
                 count(f"trace-fallback:{cls}.{view}")
             rec_insts = [] if instances is not None else None
             try:
-                prog = ir.translate(closed, record=rec_insts, keep=on_program is not None)
-            except ir.NotTranslatable as e:
-                rec.update(status="not-translatable", prim=e.prim, detail=str(e))
-                count(f"not-translatable:{e.prim}")
+                if full:
+                    prog = ir.translate(closed, record=rec_insts, keep=on_program is not None)
+                    if cached is not None:
+                        # re-traced share: the stored translation must be what the code produces now
+                        if cache.restore(cached).key() != prog.key():
+                            raise common.Infra(f"translation cache {cache.key} is stale for {cls}.{view} {json.dumps(cfg, default=str)[:120]}: delete lean/.lake/c06-cache")
+                        cache.retraced += 1
+                    elif cache is not None:
+                        cache.misses += 1
+                        cache.put(cls, cfg, view, prog, how)
+            except common.Infra:
+                raise
+            except Exception as e:  # noqa: BLE001  (NotTranslatable, or the translator itself failing on this program: a failing obligation, never a crash)
+                prim = e.prim if isinstance(e, ir.NotTranslatable) else f"translator-exception:{type(e).__name__}"
+                rec.update(status="not-translatable", prim=prim, detail=str(e)[:300])
+                count(f"not-translatable:{prim}")
                 if on_view is not None:
                     on_view(rec, A, fn, shp, dt, "after")
                 continue
@@ -293,9 +395,11 @@ def emit(records, programs, nbuckets):
     return out, index
 
 
-def generate(rng, thorough, per_class, nbuckets, hist=None, known_ids=(), on_view=None, instances=None, on_program=None):
+def generate(rng, thorough, per_class, nbuckets, hist=None, known_ids=(), on_view=None, instances=None, on_program=None, cache=None, retrace=None):
     t0 = time.time()
-    records, programs = collect(rng, thorough, per_class, hist, known_ids, on_view, instances, on_program)
+    records, programs = collect(rng, thorough, per_class, hist, known_ids, on_view, instances, on_program, cache, retrace)
+    if cache is not None:
+        cache.save()
     # every class must contribute at least one translated forward program and one translated adjoint: a class whose
     # operators cannot be constructed / traced at all gets a failing obligation (never silently absent)
     have = {}
